@@ -78,9 +78,15 @@ def generic(prop, cfg, tier, seed, parts, extra_viol=(), extra_cov=None, extra_k
         printed.append("VIOLATION property=%s replay=%s%s" % (prop, pth, "" if failing else " no-failing-input-found"))
     if not lean_ok:
         rep("proof-obligation", {"module": cfg["module"], "problems": audit["problems"]}, False)
-    for tool, nq, nt, extra, lifts in parts:
+    for part in parts:
+        tool, nq, nt, extra, lifts = part[:5]
+        only = part[5] if len(part) > 5 else None      # keep only these failure kinds (the others belong to another property)
         n = nq if tier == "quick" else nt
         r = run_tool(tool, seed, n, extra, pigeon=(tool != "pvopt"), prop=prop)
+        if only is not None:
+            r["failures"] = [f for f in (r.get("failures") or []) if f.get("kind") in only]
+            r["failure_count"] = sum((r.get("failures_by_kind") or {}).get(k, 0) for k in only)
+            r["failures_by_kind"] = {k: v for k, v in (r.get("failures_by_kind") or {}).items() if k in only}
         reports[tool] = {k: r.get(k) for k in ("evaluations", "distinct_nontrivial", "failure_count", "failures_by_kind", "wall_s", "stats")}
         total_eval += r.get("evaluations", 0)
         total_dist += r.get("distinct_nontrivial", 0)
@@ -209,7 +215,9 @@ def run_c04(prop, cfg, tier, seed):
 def run_c09(prop, cfg, tier, seed):
     # the avoidances of the repaired defects (D10, D11, D13) are lifted: they must stay repaired
     return generic(prop, cfg, tier, seed,
-                   [("pvopt", 4000, 250000, ["-lift", "optmerge-inverted,optshare,optthrow"], {"optlabels": "D5", "optbytes": "O1"})])
+                   [("pvopt", 4000, 250000, ["-lift", "optmerge-inverted,optshare,optthrow"], {"optlabels": "D5", "optbytes": "O1"}),
+                    # the command line: every rule named by (possibly repeated) -alternate-entrypoints survives -optimize-grammar
+                    ("pvtool", 1400, 20000, ["-lift", "optthrow"], {}, {"entrypoint-lost"})])
 
 
 def regenerate_artifacts():
